@@ -149,9 +149,9 @@ SRC_TIE = {
     'C10': {'Reader': ['VbsReader.__next__']},
     'C04': {'Block': ['Block1014.write', 'Block1014.finalise']},
     'C05': {'Unblock': ['Unblock1014.read', 'Block1014.write', 'Block1014.finalise']},
-    'C01': {'Bits': ['BitArray.tolist', 'BitArray.fromlist']},
+    'C01': {'Bits': ['BitArray.tolist', 'BitArray.fromlist'], 'Conv': ['_pytype_to_string', '_string_to_pytype']},
     'C02': {'Bits': ['BitArray.tolist', 'BitArray.fromlist'], 'Field': ['_get_field_length', '_field_to_iso8583', '_iso8583_to_field_frame'],
-            'EncLoop': ['_dict_to_iso8583_loop', 'BitArray.fromlist']},
+            'EncLoop': ['_dict_to_iso8583_loop', 'BitArray.fromlist'], 'Conv': ['_pytype_to_string', '_string_to_pytype']},
     'C07': {'Pds': ['_pds_to_dict', '_icc_to_dict', '_pds_to_de'], 'Field': ['_string_to_pytype']},
     'C08': {'Pds': ['_pds_to_dict', '_icc_to_dict', '_pds_to_de'], 'Bits': ['BitArray.tolist', 'BitArray.fromlist'],
             'Field': ['_get_field_length', '_iso8583_to_field_frame', '_string_to_pytype'],
